@@ -549,3 +549,10 @@ def r13(rr, repo):
             rr.ob(f'{name}: what is returned besides the frame itself is built on this call and not kept in the frame', ok, mod, (kept[0].node if kept else fn),
                   witness=f'returns {ret[:60]}; stored into the frame: {[e.term for e in kept] or "nothing"}; read back from the frame: {read_back}', key=f'rw-fresh|{name}')
     rr.floor('returning paths of the writable-view accessors', n, 6)
+
+
+@rule('C10.R14', "the pixels a frame decodes agree with its label: Frame.decode forces one plane for GRAY and three for everything else - a flag that lets the blob decide (a grayscale jpg / png given without a format) "
+                 "yields 2-D pixels under the BGR label from_blob gives them, `.bgr` hands those out as they are, `.gray` fails (shares C09.R5)")
+def r14(rr, repo):
+    from .c09 import r5 as c09r5
+    c09r5(rr, repo)
